@@ -91,9 +91,18 @@ Definition schema_ok (c : case) : bool :=
   forallb (fun '(a, b) => String.eqb (s_of_bytes a) b) (combine (c_schema c) expected_schema).
 
 (* the strict reader accepts the bytes written and recovers exactly the intended tree *)
+Fixpoint has_sub (p t : text) : bool :=
+  match t with
+  | [] => match p with [] => true | _ => false end
+  | _ :: r => match starts p t with Some _ => true | None => has_sub p r end
+  end.
+
 Definition wellformed (c : case) : bool :=
   match utf8_decode (S (length (c_bytes c))) (c_bytes c) [] with
-  | Ok doc => match lex doc with
+  | Ok doc =>
+    (* tabs and line feeds must be written literally, not as numeric entities *)
+    if has_sub (ent "&#x9;") doc || has_sub (ent "&#xA;") doc || has_sub (ent "&#9;") doc || has_sub (ent "&#10;") doc then false else
+    match lex doc with
               | Ok t => zeq (tok_tree t) (tok_tree (tidy (clean_tree (drop_empty (root_tree (c_val c))))))
               | _ => false
               end
